@@ -395,7 +395,10 @@ def gen_case(seed, idx, tier):
                 pa = Arg("s9", None, None, spec="-")
                 pa.init = "none"
                 cfg2.args.append(pa)
-            w2 = words + [rng.choice(["-q", "--quiet"]), free]
+            ender = rng.choice(["-q", "--quiet"])
+            if (cfg.flags & HF["endValues"]) and rng.random() < 0.4:
+                ender = "--endvalues"        # the documented way to end a separate value list
+            w2 = words + [ender, free]
             sid = c.add("c06", lambda sid, w=w2: argh.scenario_text(sid, "flag-ends-list", cfg2, w))
             c.meta["tails"].append((sid, w2, exp_cut, free, with_pos))
     return c
@@ -445,7 +448,7 @@ def judge(c, results, rep):
     texts = dict(c.scenarios)
     for sid, w2, exp_cut, free, with_pos in c.meta.get("tails", []):
         r = results[sid]
-        rep.stat("flag_ends_list.%s" % ("positional" if with_pos else "no-positional"))
+        rep.stat("flag_ends_list.%s%s" % ("positional" if with_pos else "no-positional", ".endvalues" if "--endvalues" in w2 else ""))
         if with_pos:
             if r.status != "ok":
                 rep.viol("%s|flag-ends-list|rejected" % kind, "%s %s argv=%r" % (r.etype, r.ewhat, w2), [texts[sid]])
